@@ -1,7 +1,8 @@
 (* C12 — byte layout: an object is the concatenation of its fields in list order, sizes are
    those of the binaryFormats, and the tables regenerated from metadata.py agree with the model. *)
 From Coq Require Import List ZArith Bool Lia.
-From TskVerif Require Import Base.Common Gen.Generated C12.Model C12.BytesProofs C12.RoundTripProofs.
+From TskVerif Require Import Base.Common Gen.Generated C12.Model C12.BytesProofs C12.Unfold C12.ValidProofs
+  C12.ShapeProofs C12.RoundTripProofs.
 Import ListNotations.
 Open Scope Z_scope.
 
@@ -16,20 +17,23 @@ Definition field_src (kv : list (key * value)) (p : prop) : option value :=
   match lookup (pkey p) kv with Some x => Some x | None => p_default (snd (fst p)) end.
 
 Lemma encode_fields_concat kv ps bs :
+  Forall prop_shape ps -> valid_fields valid kv ps = true ->
   encode_fields encode kv ps = EOk bs ->
   exists parts,
     Forall2 (fun (p : prop) part => exists x, field_src kv p = Some x /\ encode (snd p) x = EOk part) ps parts /\
     bs = concat parts.
 Proof.
-  revert bs; induction ps as [|[[k m] sub] r IH]; intros bs He.
+  intros Hsh; revert bs; induction Hsh as [|[[k m] sub] r [Hsub Hdv] _ IH]; intros bs Hvf He.
   - injection He as <-. exists []. split; constructor.
-  - cbn [encode_fields] in He. fold (encode_fields encode kv) in He. unfold ebind in He.
+  - cbn [fst snd] in *. cbn [valid_fields] in Hvf. fold (valid_fields valid kv) in Hvf.
+    apply andb_true_iff in Hvf as [Hvx Hvr].
+    cbn [encode_fields] in He. fold (encode_fields encode kv) in He. unfold ebind in He.
     assert (exists x, field_src kv (k, m, sub) = Some x /\
                       exists bx br, encode sub x = EOk bx /\ encode_fields encode kv r = EOk br /\ bs = bx ++ br)
       as (x & Hx & bx & br & Ex & Er & ->).
     { unfold field_src, pkey; cbn [fst snd].
       destruct (lookup k kv) as [x|].
-      - exists x. split; auto.
+      - exists x. split; auto. rewrite (normal_path round32 sub x _ Hsub Hvx) in He.
         destruct (encode sub x) as [bx|]; [|discriminate He].
         destruct (encode_fields encode kv r) as [br|]; [|discriminate He].
         injection He as <-. eauto.
@@ -38,18 +42,23 @@ Proof.
         destruct (encode sub x) as [bx|]; [|discriminate He].
         destruct (encode_fields encode kv r) as [br|]; [|discriminate He].
         injection He as <-. eauto. }
-    destruct (IH _ Er) as (parts & HF & ->).
+    destruct (IH _ Hvr Er) as (parts & HF & ->).
     exists (bx :: parts). split; [constructor; eauto | reflexivity].
 Qed.
 
-(* (b) part 1: the encoding of an object is the concatenation, in the order of the (ordered)
-   property list, of the encodings of obj[key] or else the default *)
+(* (b) part 1: for a schema obeying the struct rules and a valid object, the encoding is the
+   concatenation, in the order of the (ordered) property list, of the encodings of obj[key] or
+   else the default *)
 Theorem object_layout req ps kv bs :
+  shape_ok (SObj req ps) = true -> valid (SObj req ps) (VObj kv) = true ->
   encode (SObj req ps) (VObj kv) = EOk bs ->
   exists parts,
     Forall2 (fun (p : prop) part => exists x, field_src kv p = Some x /\ encode (snd p) x = EOk part) ps parts /\
     bs = concat parts.
-Proof. rewrite encode_obj_eq. apply encode_fields_concat. Qed.
+Proof.
+  intros Hs Hv. rewrite encode_obj_eq. rewrite valid_obj_eq in Hv. apply andb_true_iff in Hv as [_ Hvf].
+  apply encode_fields_concat; auto. apply (shape_ok_props req); auto.
+Qed.
 
 (* ------------------------------------------------------------ sizes *)
 
@@ -156,13 +165,24 @@ Proof.
       destruct (fields_size r) as [b|] eqn:Hb; [|discriminate Hs]. injection Hs as <-.
       cbn [encode_fields] in He. fold (encode_fields encode kv) in He. unfold ebind in He.
       cbn [snd] in Hp.
-      destruct (match lookup k kv with
-                | Some x => EOk x
-                | None => match p_default m with Some d => EOk d | None => EErr EKey end
-                end) as [x|]; [|discriminate He].
-      destruct (encode sub x) as [bx|] eqn:Ex; [|discriminate He].
-      destruct (encode_fields encode kv r) as [br|] eqn:Er; [|discriminate He].
-      injection He as <-. rewrite zlen_app. rewrite (Hp _ _ _ Ha Ex), (IHr _ _ eq_refl eq_refl).
+      assert (exists x bx br, encode sub x = EOk bx /\ encode_fields encode kv r = EOk br /\ bs = bx ++ br)
+        as (x & bx & br & Ex & Er & ->).
+      { assert (Hd : forall bsd, match p_default m with Some d => encode sub d | None => EErr EKey end = EOk bsd ->
+                                 exists d, encode sub d = EOk bsd).
+        { intros bsd H. destruct (p_default m) as [d|]; [eauto|discriminate H]. }
+        destruct (lookup k kv) as [x|].
+        - destruct (encode sub x) as [bx|e] eqn:Ex.
+          + destruct (encode_fields encode kv r) as [br|]; [|discriminate He]. injection He as <-. eauto 8.
+          + destruct e; try discriminate He.
+            destruct (match p_default m with Some d => encode sub d | None => EErr EKey end) as [bd|] eqn:Ed;
+              [|discriminate He].
+            destruct (Hd _ eq_refl) as [d Hdd].
+            destruct (encode_fields encode kv r) as [br|]; [|discriminate He]. injection He as <-. eauto 8.
+        - destruct (match p_default m with Some d => encode sub d | None => EErr EKey end) as [bd|] eqn:Ed;
+            [|discriminate He].
+          destruct (Hd _ eq_refl) as [d Hdd].
+          destruct (encode_fields encode kv r) as [br|]; [|discriminate He]. injection He as <-. eauto 8. }
+      rewrite zlen_app. rewrite (Hp _ _ _ Ha Ex), (IHr _ _ eq_refl Er).
       reflexivity.
 Qed.
 
